@@ -15,7 +15,9 @@ DATA = "tdgl.solution.data"
 SOLN = "tdgl.solution.solution"
 TECH = ("typestate analysis on the statement CFG of Runner._run_stage (product-graph search with witness paths), "
         "sibling agreement of per-step record writers/declarations, abstract shape domain {1, many} for the record "
-        "buffers writer vs reader, prefix-sum (inclusive/exclusive) typing of reported times")
+        "buffers writer vs reader, prefix-sum (inclusive/exclusive) typing of reported times; helpers that are new relative to the "
+        "frozen list are read at their call sites, events are recognised by what they do (store of the label, call of the update, "
+        "call of the frame writer), not by statement shape")
 
 
 # ---------------------------------------------------------------------------
